@@ -28,6 +28,13 @@ def run_threads_case(case):
             return recorded_data
 
     cassette = InMemoryTapeCassette()
+    # what reaches the cassette (C05 / C18 look at it; the wrappers are outside the scheduled file: no extra switch points)
+    cassette_log = []
+    for name in ('create_new_recording', 'save_recording', 'abort_recording'):
+        def spy(*a, _real=getattr(cassette, name), _name=name.split('_')[0], **kw):
+            cassette_log.append(_name)
+            return _real(*a, **kw)
+        setattr(cassette, name, spy)
     tr = TapeRecorder(cassette)
     tr.enable_recording()
     chooser = S.Scripted(case['schedule']) if case.get('schedule') is not None else \
@@ -55,7 +62,7 @@ def run_threads_case(case):
                 raise KeyError(arg)
             return ('sent', arg)
 
-        @tr.operation()
+        @tr.operation(metadata_extractor=(lambda *a, **k: {'user': 'extracted'}) if case.get('extractor') else None)
         def execute(self):
             workers = []
             for wi, calls in enumerate(case['workers']):
@@ -112,7 +119,17 @@ def run_threads_case(case):
         # waiting for a lock that a pre-empted thread holds is an artefact of the controlled schedule (the holder would go on
         # and release it): such a schedule is skipped, not judged
         outcome = 'blocked' if blocked_at.endswith(WAITS) else 'skipped'
-    return {'outcome': outcome, 'main': main_result, 'results': results, '_blocked_at': blocked_at,
+    saved = None
+    if outcome == 'finished' and cassette_log.count('save'):
+        try:
+            rec = cassette.get_recording(cassette.get_last_recording_id())
+            md = rec.get_metadata()
+            saved = {'incomplete': md.get(TapeRecorder.INCOMPLETE_RECORDING), 'exc': md.get(TapeRecorder.EXCEPTION_IN_OPERATION),
+                     'user': md.get('user'),
+                     'has_operation_output': any(TapeRecorder.OPERATION_OUTPUT_ALIAS in k for k in rec.get_all_keys() if k.startswith('output:'))}
+        except Exception as ex:
+            saved = {'error': type(ex).__name__}
+    return {'outcome': outcome, 'main': main_result, 'results': results, '_blocked_at': blocked_at, 'log': list(cassette_log), 'saved': saved,
             '_choices': list(sch.choices), '_decisions': [dict(d) for d in sch.decisions][:400], '_steps': sch.steps}
 
 
